@@ -79,14 +79,14 @@ def capacity_rules(run, F, E):
         rec = F.rec_by_name.get(fn.cls) or {}
         cap = rec.get('consts', {}).get('TASK_CAPACITY')
         c = cfgmod.cfg_of(fn)
-        br = [b for b in c.events(('branch',)) if b.e is not None and 'count()' in ir.pp(b.e)]
+        def has_room(t):
+            # count() < CAPACITY  (or count() <= CAPACITY - 1), in whatever spelling
+            return t['k'] == 'bin' and ir.pp(ir.strip(t['l'])) == '_planData.tasks.count()' and \
+                ((t['op'] == '<' and ir.const_val(t['r']) == cap) or (t['op'] == '<=' and ir.const_val(t['r']) == cap - 1))
+        br = ir.find_decisions(c, has_room)
         ok = len(br) == 1
         if ok:
-            th = ir.normalize(br[0].e)
-            ok = th['k'] == 'bin' and th['op'] in ('<', '<=') and ir.const_val(th['r']) in ((cap,) if th['op'] == '<' else (cap - 1, cap)) and \
-                ir.pp(ir.strip(th['l'])) == '_planData.tasks.count()'
-            t = [s for s, l in br[0].succ if l == 'T'][0]
-            f = [s for s, l in br[0].succ if l == 'F'][0]
+            _, t, f = br[0]
             muts = c.events(('write', 'new')) + c.events(('call',), lambda n: n.e.get('m') in ('emplace', 'linkTask'))
             ok = ok and all(c.dominates(t, n) for n in muts)
             rets = [ir.const_val(n.e.get('e')) for n in c.events(('ret',)) if c.dominates(f, n)]
@@ -104,11 +104,11 @@ def capacity_rules(run, F, E):
                where=fn.pat, detail=ws, key='PayloadPlanT::append writes plan storage without a capacity test')
     for fn in F.find('PlanT', 'linkTask'):
         c = cfgmod.cfg_of(fn)
-        br = [b for b in c.events(('branch',)) if b.e is not None and ir.pp(ir.normalize(b.e)) in ('(index != 255)', '(index != INVALID(255))')]
+        pid = fn.params[0]['id']
+        br = ir.find_decisions(c, lambda t: t['k'] == 'bin' and t['op'] == '!=' and ir.strip(t['l']).get('id') == pid and ir.const_val(t['r']) == 255)
         ok = len(br) == 1
         if ok:
-            t = [s for s, l in br[0].succ if l == 'T'][0]
-            f = [s for s, l in br[0].succ if l == 'F'][0]
+            _, t, f = br[0]
             ok = all(c.dominates(t, n) for n in c.events(('write',)))
             rt = [ir.const_val(n.e.get('e')) for n in c.events(('ret',)) if c.dominates(t, n)]
             rf = [ir.const_val(n.e.get('e')) for n in c.events(('ret',)) if c.dominates(f, n)]
@@ -148,7 +148,7 @@ def path_writes(F, E, fn):
             if n.kind == 'write' and n.e.get('k') == 'asg':
                 ws.append((ir.pp(ir.normalize(expand_ref(n.e['l']))), ir.pp(ir.normalize(expand_ref(n.e['r'])))))
             if n.kind == 'branch' and lab in ('T', 'F') and n.e is not None:
-                decisions.append((ir.pp(ir.normalize(expand_ref(n.e))), lab))
+                decisions.extend(ir.decision_aliases(expand_ref(n.e), lab))
         res.append((decisions, ws))
     return res
 
